@@ -554,7 +554,8 @@ type c15Run struct {
 	inCb     atomic.Int32
 	returned atomic.Bool
 	nDeliv   int
-	late     int
+	late     int // callbacks that started after Run had returned
+	lateExit int // callbacks that were still active when Run returned
 	emptyCb  int
 	sleeps   int
 	objects  int64
@@ -670,6 +671,21 @@ func c15Ahead(consumer string) int {
 
 // consume is the consumer's behaviour between the entry check and the exit check.
 func (r *c15Run) consume(d int) {
+	r.consume1(d)
+	// the last group: stay inside the callback until the producer has seen the end of the file and a little
+	// longer — if Run does not wait for its consumer this is where it returns too early (observed by state:
+	// "Run has returned while a callback is active", never by the delay itself)
+	if d == len(r.exp)-1 && r.c.Consumer != "instant" && r.c.Consumer != "lockstep" {
+		eof := uint64(len(r.car.Bytes)) + 1
+		r.sched.waitFor(func() bool { return r.sched.progress >= eof })
+		for i := 0; i < 10; i++ {
+			runtime.Gosched()
+		}
+		time.Sleep(300 * time.Microsecond)
+	}
+}
+
+func (r *c15Run) consume1(d int) {
 	mode := r.c.Consumer
 	if mode == "mixed" {
 		r.mu.Lock()
@@ -771,6 +787,9 @@ func (r *c15Run) callback(parent *ObjectWithMetadata, children []ObjectWithMetad
 	}
 	r.objects += n
 	r.kept = append(r.kept, c15Delivery{parent, children})
+	if r.returned.Load() {
+		r.lateExit++
+	}
 	r.mu.Unlock()
 	r.sched.callbackDone()
 	return nil
@@ -1000,6 +1019,7 @@ func c15RunCase(rec *ev.Recorder, car *c15Car, c c15Case) c15Result {
 		res.inconc = fmt.Sprintf("%s: Run did not return (delivered %d of %d groups; accumulator goroutines parked=%d running=%d: %s)", c.String(), nd, len(exp), parked, running, strings.Join(hdrs, "; "))
 		return res
 	}
+	activeAtReturn := r.inCb.Load() > 0
 	if out.pan != nil {
 		violate("panic", fmt.Sprintf("Run panicked: %v\n%s", out.pan, out.stk))
 		return res
@@ -1031,6 +1051,9 @@ func c15RunCase(rec *ev.Recorder, car *c15Car, c c15Case) c15Result {
 	}
 	if r.changed != nil {
 		violate(r.changed.class, r.changed.detail)
+	}
+	if r.late > 0 || r.lateExit > 0 || activeAtReturn {
+		violate("returned-before-drain", fmt.Sprintf("Run returned while its consumer was still at work: callback active at the moment of return=%v, %d callbacks started after the return, %d finished after it (of %d expected groups)", activeAtReturn, r.late, r.lateExit, len(exp)))
 	}
 	if r.concur {
 		violate("concurrent-callbacks", "two callbacks were active at the same time")
